@@ -25,7 +25,7 @@ ToSet(s) == {s[j] : j \in DOMAIN s}
 
 \* the harness' projection agrees with the stake vector (checked when the vector is present)
 ProjectionOK(e) ==
-  /\ e.strategy \in AllStrategies
+  /\ e.strategy \in AllStrategies \cup ShuffleStrategies
   /\ e.small =>
        /\ Len(e.stakes) = e.n
        /\ ToSet(e.zeros) = ZeroIds(e.stakes)
@@ -55,8 +55,29 @@ FailedDraw(e, d) ==
   \cup (IF Determinism(returned) THEN {} ELSE {"Determinism"})
   \cup UNION {FailedCommittee(e, c) : c \in returned}
 
+\* weighted shuffle events: every draw carries
+\*   full, again : full shuffles of two independently built instances, same seed
+\*   part, cont  : third instance: m validators, then the rest with the SAME random source
+\*   part2, rest2: fourth instance: m validators, then the rest with ANOTHER random source
+FailedShuffle(e, d) ==
+  LET z == ToSet(e.zeros)
+      runs == <<d.full, d.again, d.part, d.cont, d.part2, d.rest2>>
+      ok == \A r \in DOMAIN runs : runs[r].ok
+  IN IF ~ok THEN {"Returns"}      \* nothing is excluded: every stake vector can be shuffled
+     ELSE (IF ShufflePermutation(d.full.c, e.n) THEN {} ELSE {"ShufflePermutation"})
+     \cup (IF ShuffleZerosLast(d.full.c, z, e.npos) THEN {} ELSE {"ShuffleZerosLast"})
+     \cup (IF Determinism({d.full.c, d.again.c}) THEN {} ELSE {"Determinism"})
+     \cup (IF ShufflePrefix(d.part.c, d.full.c, d.m) /\ ShufflePrefix(d.part2.c, d.full.c, d.m)
+           THEN {} ELSE {"ShufflePrefix"})
+     \cup (IF ShuffleContinues(d.part.c, d.cont.c, d.full.c) THEN {} ELSE {"ShuffleContinues"})
+     \cup (IF ShuffleRemoves(d.part2.c, d.rest2.c, e.n) THEN {} ELSE {"ShuffleRemoves"})
+     \cup (IF ShuffleRestZerosLast(d.part2.c, d.rest2.c, z, e.npos) THEN {} ELSE {"ShuffleZerosLast"})
+
 Failed(e) ==
   IF ~ProjectionOK(e) THEN {[d |-> 0, p |-> "BadEvent"]}
+  ELSE IF e.strategy \in ShuffleStrategies
+       THEN (IF e.cpanic THEN {[d |-> 0, p |-> "Constructible"]}
+             ELSE UNION {{[d |-> j, p |-> p] : p \in FailedShuffle(e, e.draws[j])} : j \in DOMAIN e.draws})
   ELSE IF e.cpanic
        THEN (IF MustConstruct(e.strategy, ToSet(e.zeros)) THEN {[d |-> 0, p |-> "Constructible"]} ELSE {})
        ELSE UNION {{[d |-> j, p |-> p] : p \in FailedDraw(e, e.draws[j])} : j \in DOMAIN e.draws}
